@@ -9,11 +9,15 @@ QUERIES = [
   q('backtrace_requests_dropping', 'h_backtrace_requests', 'real init_backtrace / flush_backtrace: the control request is never discarded on a dropping queue (retried until accepted, exactly one record), flush level stored',
     'same queue; capacity and flush level symbolic'),
 ]
+# backend side of the hand-over: the kernels of C10 that run the real Flush branch and the real per-sink flush loop
+import importlib.util, os
+_spec = importlib.util.spec_from_file_location('c10', os.path.join(os.path.dirname(__file__), 'C10.py')); _m = importlib.util.module_from_spec(_spec); _m.Q = Q; _spec.loader.exec_module(_m)
+QUERIES += [x for x in _m.QUERIES if x.name.startswith('flush_')]
 BOUNDS = 'one flush / backtrace request, at most one earlier statement, capacity 64'
-OUTSIDE = 'the BACKEND side of the hand-over (sinks written and flushed before the flag is set; other threads\' statements under the grace period; per-sink flush) needs the BackendWorker kernels K1/K3, which could not be brought under the memory/time caps: not claimed. fflush/fsync reaching the disk is kernel behaviour.'
+OUTSIDE = 'the composition of the backend kernels (statements ahead of the request written before it is processed: K1 order + K3 minimum dispatch, C03/C05); other threads\' statements under the grace period. fflush/fsync reaching the disk is kernel behaviour.'
 ASSUMPTIONS = ['backend = fair stub executed at the cut sleep_for/yield: consumes records in order, sets the flag of a Flush request when it reaches it']
 MANIFEST = {
- 'text': 'Reduced scope (caller side): the solver decides on the real flush_log / init_backtrace / flush_backtrace with a dropping queue that the control request is retried until accepted, enqueued exactly once and never counted as discarded, and that flush_log returns only after the flag travelling through the queue has been set by a backend stub that consumed everything ahead of the request. The backend side (written and flushed before the flag) is not claimed.',
+ 'text': 'Reduced scope (caller side, plus the backend\'s Flush branch as a kernel): on the real _process_lowest_timestamp_transit_event a Flush request flushes every active sink exactly once - even when some sinks throw - before the caller\'s flag is raised, and the request is consumed (queries flush_* shared with C10). Caller side: the solver decides on the real flush_log / init_backtrace / flush_backtrace with a dropping queue that the control request is retried until accepted, enqueued exactly once and never counted as discarded, and that flush_log returns only after the flag travelling through the queue has been set by a backend stub that consumed everything ahead of the request. The backend side (written and flushed before the flag) is not claimed.',
  'note': 'Backend replaced by a fair stub at the sleep/yield scheduling points; capacity 64; one request. Trusted: clang IR, translator, CBMC.',
  'technique': 'CBMC/SAT over clang IR of the real flush_log/log_statement retry and wait loops with a stub backend run at the cut sleep points; native replay',
 }
